@@ -151,6 +151,25 @@ func specials() []special {
 		{Name: "identityref-unknown-prefix", Shape: "pathological", Text: hdr("a") + " leaf x { type identityref { base zz:i; } } }"},
 		{Name: "type-unknown-prefix", Shape: "pathological", Text: hdr("a") + " leaf x { type zz:t; } }"},
 		{Name: "uses-unknown-prefix", Shape: "pathological", Text: hdr("a") + " uses zz:g; }"},
+		{Name: "range-with-modifier", Shape: "pathological", Text: hdr("a") + " leaf l { type int32 { range \"1..2\" { modifier invert-match; } } } }"},
+		{Name: "length-with-modifier", Shape: "pathological", Text: hdr("a") + " leaf l { type string { length \"1..2\" { modifier invert-match; } } } }"},
+		{Name: "augment-action-into-leaf", Shape: "pathological", Text: hdr("a") + " leaf l { type string; } augment \"/l\" { action act { } } }"},
+		{Name: "augment-action-into-choice", Shape: "pathological", Text: hdr("a") + " choice c { leaf l { type string; } } augment \"/c\" { action act { } } }"},
+		{Name: "augment-notification-into-leaf", Shape: "pathological", Text: hdr("a") + " leaf l { type string; } augment \"/l\" { notification n { } } }"},
+		{Name: "deviate-not-supported-on-case", Shape: "pathological", Text: hdr("a") + " choice c { case k { leaf l { type string; } } } deviation \"/c/k\" { deviate not-supported; } }"},
+		{Name: "deviate-default-on-anyxml", Shape: "pathological", Text: hdr("a") + " anyxml ax; deviation \"/ax\" { deviate add { default \"x\"; } } }"},
+		{Name: "deviate-units-on-anyxml", Shape: "pathological", Text: hdr("a") + " anyxml ax; deviation \"/ax\" { deviate add { units \"x\"; } } }"},
+		{Name: "deviate-delete-default-on-anyxml", Shape: "pathological", Text: hdr("a") + " anyxml ax; deviation \"/ax\" { deviate delete { default \"x\"; } } }"},
+		{Name: "deviate-replace-default-on-anydata", Shape: "pathological", Text: hdr("a") + " anydata ad; deviation \"/ad\" { deviate replace { default \"x\"; } } }"},
+		{Name: "deviate-add-two-defaults-on-leaf", Shape: "pathological", Text: hdr("a") + " leaf l { type string; } deviation \"/l\" { deviate add { default \"a\"; default \"b\"; } } }"},
+		{Name: "config-in-notification", Shape: "pathological", Text: hdr("a") + " notification n { leaf l { config true; type string; } } }"},
+		{Name: "config-in-rpc-input", Shape: "pathological", Text: hdr("a") + " rpc r { input { leaf l { config true; type string; } } } }"},
+		{Name: "config-in-rpc-output", Shape: "pathological", Text: hdr("a") + " rpc r { output { container c { config false; leaf l { type string; } } } } }"},
+		{Name: "config-in-action-input", Shape: "pathological", Text: hdr("a") + " container c { action r { input { leaf l { config true; type string; } } } } }"},
+		{Name: "submodule-includes-itself-bare", Shape: "cycle", Text: hdr("a") + " include s; }", Mods: map[string]string{"s": "submodule s { belongs-to a { prefix a; } include s; }"}},
+		{Name: "anyxml-default", Shape: "pathological", Text: hdr("a") + " anyxml ax { default \"x\"; } }"},
+		{Name: "anydata-units", Shape: "pathological", Text: hdr("a") + " anydata ad { units \"x\"; } }"},
+		{Name: "refine-default-on-anydata", Shape: "pathological", Text: hdr("a") + " grouping g { anydata ad; } uses g { refine ad { default \"x\"; } } }"},
 		{Name: "choice-in-choice-direct", Shape: "pathological", Text: hdr("a") + " choice c { choice d { leaf x { type string; } } } }"},
 	}
 }
